@@ -5,6 +5,7 @@ sequence (per table, small operand pools) and the crash point: every execute / c
 a crash abandons the connection without commit, the file is reopened with a fresh store and inspected."""
 import os, shutil, sqlite3, tempfile
 from sx import core, hooks, harness as H
+from checks import stack_common as ST
 
 PROPERTY = "C13"
 LEVEL = "fault_enumeration"
@@ -254,6 +255,7 @@ def h_crash(ctx, table, n_ops):
         shutil.rmtree(d, ignore_errors=True)
 
 
+@ST.deterministic("c13-h_durable_real")
 def h_durable_real(ctx):
     """real python-axolotl records through the public load API after close/reopen (blob fidelity, text_factory=bytes)"""
     from axolotl.util.keyhelper import KeyHelper
